@@ -10,4 +10,29 @@ def scan(pmax, calls, timeout, tier="both"):
          units=U, timeout=timeout, mem_gb=6, tier=tier,
          bounds="prefix 0..%d symbolic bytes + 26 archive bytes; first %d source reads arbitrarily short; first read of 1..8 bytes" % (pmax, calls),
          stubs=["src_read: symbolic source with short reads"])
-HARNESSES = [scan(4, 2, 600), scan(13, 3, 900)]
+def it(mode="functional", timeout=300, len0=None, ret=None, tier="both"):
+    return dict(name="scan.iter%s%s" % ("" if len0 is None else ".l%dr%d" % (len0, ret), ".safe" if mode == "safety" else ""), src="C16/iter.c", tier=tier,
+                defines=["LHASA_VERIF_SFX_RESUME"] + ([] if len0 is None else ["LEN0=%d" % len0, "RET=%d" % ret]), mode=mode, unwind=38, optional_witnesses=True,
+                unwindset={"skip_sfx.0": 14, "skip_sfx.1": 3, "verif_memmove.0": 26, "verif_memmove.1": 26, "verif_memcmp.0": 14, "verif_memcpy.0": 26, "src_read.0": 26, "is_marker_at.0": 8, "is_marker_at.1": 13},
+                units=["lib/lha_input_stream.c:skip_sfx,file_header_match,empty_leadin,do_read"], timeout=timeout, mem_gb=4,
+                bounds="one loop iteration from an arbitrary loop state: <= 12 carried-over bytes (invariant), arbitrary refill count -1..free space, all 24 window bytes symbolic, skip state 0/1, filepos arbitrary (real 256 KiB limit)",
+                stubs=["source read callback: arbitrary count/bytes once, then end of data", "LHASA_VERIF_SFX_RESUME hook: loop state settable/observable", "memmove/memcmp: byte loops"])
+
+
+def rd(len0, buflen, mode="functional", timeout=120, tier="both", failed=0):
+    return dict(name="read.l%db%d%s%s" % (len0, buflen, ".failed" if failed else "", ".safe" if mode == "safety" else ""), src="C16/read.c",
+                defines=["BL=%d" % max(buflen, 1), "LEN0=%d" % len0, "BUFLEN=%d" % buflen, "FAILED=%d" % failed], mode=mode, optional_witnesses=True,
+                unwind=max(buflen, 24) + 2, unwindset={"skip_sfx.0": 1, "skip_sfx.1": 1}, units=["lib/lha_input_stream.c:lha_input_stream_read,empty_leadin,do_read"], timeout=timeout, mem_gb=4, tier=tier,
+                bounds="lead-in buffer of %d arbitrary bytes, request of %d bytes into an object of exactly that size, arbitrary source result (count -1..asked, bytes)" % (len0, buflen),
+                stubs=["source read callback: arbitrary count/bytes", "memmove/memcpy: byte loops"])
+
+
+SKIP = dict(name="skip.kinds", src="C16/skip.c", unwind=6, unwind_is_property=True, units=["lib/lha_input_stream.c:file_source_skip,file_source_skip_fallback,file_source_read,lha_input_stream_skip"], timeout=300, mem_gb=4,
+            bounds="any position/length (< 2^40), skip distance 0..70 (three 32-byte pieces), following read of 1..4 bytes",
+            stubs=["FILE: (position, length, seekable, eof) model behind fread/ftell/fseek/feof; fseek may move past the end"])
+Q_ITER = [(0, 24), (0, 13), (0, 12), (0, 1), (12, 12), (12, 1), (5, 9), (7, 17), (3, -1), (3, 0)]
+ALL_ITER = [(l, r) for l in range(13) for r in range(-1, 25 - l)]
+Q_READ = [(24, 22), (13, 22), (0, 22), (24, 24), (5, 3), (0, 0), (1, 1)]
+HARNESSES = ([it(len0=l, ret=r, timeout=120) for l, r in Q_ITER] + [it("safety", len0=l, ret=r, timeout=120) for l, r in [(0, 24), (12, 12), (7, 17)]] +
+             [rd(l, b) for l, b in Q_READ] + [rd(7, 9, failed=1)] + [rd(l, b, "safety") for l, b in [(24, 22), (13, 22), (5, 3)]] + [SKIP] +
+             [it(len0=l, ret=r, timeout=300, tier="thorough") for l, r in ALL_ITER if (l, r) not in Q_ITER])
